@@ -79,7 +79,7 @@ def rule_skeleton(ctx: Ctx) -> None:
         sw = [x for x in d.all_defs("cv") if canon(x[1]) == "np.swapaxes(cv, 0, 2)"]
         ctx.ob("C02.SKELETON", rel, sw[0][0] if sw else f, f"{cls}: final np.swapaxes(cv, 0, 2)", len(sw) == 1 and sw[0][0].lineno > lp.end_lineno, expected="(disp, col, row) -> (row, col, disp)")
         ic = d.all_defs("index_col")
-        ok = len(ic) == 2 and canon(ic[0][1]) == f"{cvp}.attrs['col_to_compute']" and poly(ic[1][1]) == poly(_e(f"index_col - {il}.coords['col'].data[0]"))
+        ok = len(ic) == 2 and canon(ic[0][1]) == f"{cvp}.attrs['col_to_compute']" and poly(d.expand(ic[1][1], ic[1][0], depth=2, stop=("index_col", il))) == poly(_e(f"index_col - {il}.coords['col'].data[0]"))
         ctx.ob("C02.SKELETON", rel, ic[-1][0] if ic else f, f"{cls}: column selection {[canon(x[1]) for x in ic]}", ok, expected=f"attrs['col_to_compute'] - {il}.coords['col'].data[0]", detail="columns to keep are coordinates: they become array indices only after subtracting the first column coordinate")
         fin = [s for s in body if isinstance(s, ast.Assign) and canon(s.targets[0]) == f"{cvp}['cost_volume'].data"]
         ok = len(fin) == 1 and canon(fin[0].value) == "cv[(::, index_col, ::)]"
